@@ -294,7 +294,7 @@ Proof.
 Qed.
 
 (* ---- blocks ---- *)
-(* the stack holds one entry per open block: true for alt (which alone admits else) *)
+(* the stack holds one entry per open block: true for alt (the only kind in which else may occur) *)
 Fixpoint blk (stk:list bool) (evs:list event) : option (list bool) :=
   match evs with
   | [] => Some stk
@@ -971,3 +971,202 @@ Example seq_sender_active_nonvacuous :
   exists d ev, gen {| v_lookup_panics := false; v_inprog_unguarded := false |} inprog_module (fuel_for inprog_module) [] [(0%N,0%N)] = Ok (d, ev)
                /\ n_act 0%N ev = 1 /\ length (arrows ev) = 4.
 Proof. eexists. eexists. vm_compute. repeat split; reflexivity. Qed.
+
+(* ================================================================ 6. every participant used is declared exactly once *)
+Definition part_ids (p:part) : list id := match p with World => [] | P a => [a] end.
+Definition ev_parts (e:event) : list id :=
+  match e with
+  | Arrow s t _ | Return s t => part_ids s ++ [t]
+  | Self a | Activate a | Deactivate a | NoteOver a => [a]
+  | _ => []
+  end.
+Definition parts (evs:list event) : list id := flat_map ev_parts evs.
+
+Definition Dc (s:st) : Prop :=
+  NoDup (syms s) /\ (forall x, In x (parts (out s)) -> In x (syms s)) /\ (forall y b, In (y,b) (cells s) -> In y (syms s)).
+
+Lemma NoDup_snoc {A} (l:list A) x : NoDup l -> ~ In x l -> NoDup (l ++ [x]).
+Proof.
+  induction 1 as [|y l Hy Hl IH]; intros Hx; cbn [Datatypes.app]; [constructor; [intros []|constructor]|].
+  constructor.
+  - intros Hin. apply in_app_or in Hin as [Hin|[->|[]]]; [contradiction|apply Hx; left; reflexivity].
+  - apply IH. intros Hin. apply Hx. right. exact Hin.
+Qed.
+
+Lemma syms_fire s c : syms (fire s c) = syms s. Proof. prim_field. Qed.
+Lemma syms_cut V s from a ep up : syms (ve_cut V s from a ep up) = syms s. Proof. prim_field. Qed.
+Lemma syms_activated s a b : syms (fst (activated s a b)) = syms s. Proof. prim_field. Qed.
+Lemma syms_deactivate s a : syms (deactivate s a) = syms s. Proof. prim_field. Qed.
+
+Lemma Dc_emit s e : (forall x, In x (ev_parts e) -> In x (syms s)) -> Dc s -> Dc (emit s e).
+Proof.
+  intros He (H1 & H2 & H3). repeat split; [exact H1| |exact H3].
+  intros x Hx. cbn [out emit syms] in *. unfold parts in Hx. rewrite flat_map_app in Hx. apply in_app_or in Hx as [Hx|Hx]; [apply H2, Hx|].
+  cbn [flat_map] in Hx. rewrite app_nil_r in Hx. apply He, Hx.
+Qed.
+Lemma Dc_same s s' : syms s' = syms s -> out s' = out s -> cells s' = cells s -> Dc s -> Dc s'.
+Proof. unfold Dc. intros -> -> ->. auto. Qed.
+Lemma Dc_uniq s x : Dc s -> Dc (uniq_var s x) /\ In x (syms (uniq_var s x)) /\ incl (syms s) (syms (uniq_var s x)).
+Proof.
+  intros (H1 & H2 & H3). unfold uniq_var. destruct (existsb (N.eqb x) (syms s)) eqn:E.
+  - repeat split; auto; [|intros y Hy; exact Hy]. apply existsb_exists in E as (y & Hy & Ey). apply N.eqb_eq in Ey. subst y. exact Hy.
+  - cbn [syms with_syms out cells]. repeat split.
+    + apply NoDup_snoc; [exact H1|]. intros Hin. assert (existsb (N.eqb x) (syms s) = true); [|congruence].
+      apply existsb_exists. exists x. split; [exact Hin|apply N.eqb_refl].
+    + intros y Hy. apply in_or_app. left. apply H2, Hy.
+    + intros y b Hy. apply in_or_app. left. eapply H3, Hy.
+    + apply in_or_app. right. left. reflexivity.
+    + intros y Hy. apply in_or_app. left. exact Hy.
+Qed.
+Lemma Dc_activate s a : In a (syms s) -> Dc s -> Dc (activate s a).
+Proof.
+  intros Ha H. unfold activate. apply Dc_emit; [intros x [<-|[]]; exact Ha|]. eapply Dc_same; [| | |exact H]; reflexivity.
+Qed.
+Lemma Dc_deactivate s a : In a (syms s) -> Dc s -> Dc (deactivate s a).
+Proof.
+  intros Ha H. unfold deactivate. destruct (get a (active s)); [exact H|].
+  apply Dc_emit; [intros x [<-|[]]; exact Ha|]. eapply Dc_same; [| | |exact H]; reflexivity.
+Qed.
+Lemma in_disarm c l y b : In (y,b) (disarm c l) -> exists b', In (y,b') l.
+Proof.
+  revert c. induction l as [|[z b0] t IH]; intros c; [destruct c; intros []|].
+  destruct c as [|c]; cbn [disarm].
+  - intros [E|H]; [injection E as E1 E2; subst; exists b0; left; reflexivity|exists b; right; exact H].
+  - intros [E|H]; [injection E as E1 E2; subst; exists b; left; reflexivity|]. destruct (IH _ H) as (b' & Hb). exists b'. right. exact Hb.
+Qed.
+Lemma Dc_fire s c : Dc s -> Dc (fire s c).
+Proof.
+  intros H. unfold fire. destruct (nth_error (cells s) c) as [[y [|]]|] eqn:E; try exact H.
+  assert (Hy : In y (syms s)) by (destruct H as (_ & _ & H3); eapply H3, nth_error_In, E).
+  apply Dc_deactivate; [exact Hy|]. destruct H as (H1 & H2 & H3). repeat split; auto.
+  intros z b Hz. cbn [cells with_cells] in Hz. apply in_disarm in Hz as (b' & Hz). eapply H3, Hz.
+Qed.
+Lemma Dc_activated s a b : In a (syms s) -> Dc s -> Dc (fst (activated s a b)).
+Proof.
+  intros Ha H. unfold activated. cbn [fst].
+  assert (H' : Dc (if b then s else activate s a)) by (destruct b; [exact H|apply Dc_activate; assumption]).
+  assert (Hs : syms (if b then s else activate s a) = syms s) by (destruct b; reflexivity).
+  destruct H' as (H1 & H2 & H3). repeat split; auto. intros y b' Hy. cbn [cells with_cells] in Hy.
+  apply in_app_or in Hy as [Hy|[[= <- _]|[]]]; [eapply H3, Hy|]. cbn [syms with_cells]. rewrite Hs. exact Ha.
+Qed.
+Definition sender_in (s:st) (from:option id) : Prop := match from with Some x => In x (syms s) | None => True end.
+Lemma part_sender_in s from x : sender_in s from -> In x (part_ids (sender_of from)) -> In x (syms s).
+Proof. destruct from as [y|]; cbn; [intros H [<-|[]]; exact H|intros _ []]. Qed.
+Lemma Dc_cut V s from a ep up : In a (syms s) -> sender_in s from -> Dc s -> Dc (ve_cut V s from a ep up).
+Proof.
+  intros Ha Hf H. unfold ve_cut. cbv zeta.
+  assert (Hr : forall s1, syms s1 = syms s -> Dc s1 -> Dc (emit s1 (Return (sender_of from) a))).
+  { intros s1 E1 D1. apply Dc_emit; [|exact D1]. intros x Hx. rewrite E1. cbn [ev_parts] in Hx.
+    apply in_app_or in Hx as [Hx|[<-|[]]]; [eapply part_sender_in; eassumption|exact Ha]. }
+  assert (Hn : forall s1, syms s1 = syms s -> Dc s1 -> Dc (emit s1 (NoteOver a))).
+  { intros s1 E1 D1. apply Dc_emit; [|exact D1]. intros x [<-|[]]. rewrite E1. exact Ha. }
+  destruct up as [u|]; destruct (is_shown _); destruct (ep_hidden ep); try destruct (u_comment u); destruct (v_inprog_unguarded V);
+    cbn [is_some orb];
+    repeat first [exact H | apply Dc_deactivate; [exact Ha|] | apply Hr; [reflexivity|] | apply Hn; [reflexivity|]
+                 | apply Dc_activate; [exact Ha|] | apply Dc_emit; [intros ? []|] ].
+Qed.
+
+Section Declared.
+  Variable V : variant.
+  Variable m : module.
+
+  Lemma pre_Dc s from a e ap ep sh caller : Dc s ->
+    let s2 := ve_early (ve_arrow (ve_reg s from a) from a e ap ep) from a sh caller in
+    Dc s2 /\ In a (syms s2) /\ sender_in s2 from /\ incl (syms s) (syms s2).
+  Proof.
+    intros H. cbv zeta.
+    assert (H0 : Dc (ve_reg s from a) /\ In a (syms (ve_reg s from a)) /\ sender_in (ve_reg s from a) from /\ incl (syms s) (syms (ve_reg s from a))).
+    { unfold ve_reg. destruct from as [x|]; cbn [sender_in].
+      - destruct (Dc_uniq s x H) as (D1 & I1 & M1). destruct (Dc_uniq _ a D1) as (D2 & I2 & M2).
+        split; [exact D2|]. split; [exact I2|]. split; [apply M2, I1|intros y Hy; apply M2, M1, Hy].
+      - destruct (Dc_uniq s a H) as (D2 & I2 & M2). auto. }
+    destruct H0 as (D0 & I0 & S0 & M0).
+    assert (H1 : Dc (ve_arrow (ve_reg s from a) from a e ap ep) /\ syms (ve_arrow (ve_reg s from a) from a e ap ep) = syms (ve_reg s from a)).
+    { unfold ve_arrow. destruct (arrow_drawn from ap ep); [|auto]. split; [|reflexivity]. apply Dc_emit; [|exact D0].
+      intros x Hx. cbn [ev_parts] in Hx. apply in_app_or in Hx as [Hx|[<-|[]]]; [eapply part_sender_in; eassumption|exact I0]. }
+    destruct H1 as (D1 & E1).
+    destruct (early_cases (ve_arrow (ve_reg s from a) from a e ap ep) from a sh caller) as [->|(c & _ & ->)].
+    - unfold sender_in in *. rewrite E1. destruct from; auto.
+    - unfold sender_in in *. rewrite syms_fire, E1. split; [apply Dc_fire, D1|destruct from; auto].
+  Qed.
+
+  Lemma visit_endpoint_decl fuel : forall bbs s from a e caller s',
+    visit_endpoint V m fuel bbs s from a e caller = Ok s' -> Dc s -> Dc s' /\ incl (syms s) (syms s').
+  Proof.
+    induction fuel as [|f IH]; intros bbs s from a e caller s' H HD; [discriminate|].
+    rewrite visit_endpoint_eq in H. destruct (lookup m a e) as [[ap ep]|] eqn:L; [|exfalso; eapply lookup_fail_not_ok, H].
+    cbv zeta in H.
+    destruct (pre_Dc s from a e ap ep (is_shown (ret_payload (ep_body ep))) caller HD) as (D2 & A2 & S2 & M2).
+    set (s2 := ve_early _ _ _ _ _) in *.
+    destruct (ep_body ep) as [|x0 b0] eqn:Eb.
+    - injection H as <-. auto.
+    - destruct (_ || _) in H.
+      + injection H as <-. split; [apply Dc_cut; assumption|rewrite syms_cut; exact M2].
+      + match type of H with bind ?r _ = _ => destruct r as [s5| | |] eqn:W; try discriminate end.
+        cbn [bind] in H. injection H as <-.
+        set (R := fun s1 s1' => Dc s1 -> In a (syms s1) -> sender_in s1 from -> Dc s1' /\ incl (syms s1) (syms s1')).
+        assert (HR1 : forall s1, R s1 s1) by (intros s1 D1 _ _; split; [exact D1|intros y Hy; exact Hy]).
+        assert (HR2 : forall s1 s1' s1'', R s1 s1' -> R s1' s1'' -> R s1 s1'').
+        { intros s1 s1' s1'' H1 H2 D1 A1 S1. destruct (H1 D1 A1 S1) as (D' & M').
+          assert (A' : In a (syms s1')) by (apply M', A1).
+          assert (S' : sender_in s1' from) by (unfold sender_in in *; destruct from; [apply M', S1|exact I]).
+          destruct (H2 D' A' S') as (D'' & M''). split; [exact D''|intros y Hy; apply M'', M', Hy]. }
+        assert (HR3 : forall s1 ev, walk_ev a (sender_of from) ev -> R s1 (emit s1 ev)).
+        { intros s1 ev Hev D1 A1 S1. split; [|intros y Hy; exact Hy]. apply Dc_emit; [|exact D1].
+          intros x Hx. destruct ev; cbn in Hev; try contradiction; cbn [ev_parts] in Hx; try (destruct Hx; fail).
+          - destruct Hev as [-> ->]. apply in_app_or in Hx as [Hx|[<-|[]]]; [eapply part_sender_in; eassumption|exact A1].
+          - subst. destruct Hx as [<-|[]]. exact A1. }
+        assert (HR4 : forall s1 t te last s1',
+                   visit_endpoint V m f bbs s1 (Some a) t te (Some (snd (activated s2 a (suppr ap)), last)) = Ok s1' -> R s1 s1')
+          by (intros s1 t te last s1' Hc D1 _ _; eapply IH; eassumption).
+        pose proof (walk_pres _ a (sender_of from) R HR1 HR2 HR3 HR4 _ _ _ _ W) as W'.
+        assert (D4 : Dc (push_visited (fst (activated s2 a (suppr ap))) a e))
+          by (eapply Dc_same; [| | |apply (Dc_activated s2 a (suppr ap) A2 D2)]; reflexivity).
+        assert (E4 : syms (push_visited (fst (activated s2 a (suppr ap))) a e) = syms s2)
+          by (change (syms (push_visited (fst (activated s2 a (suppr ap))) a e)) with (syms (fst (activated s2 a (suppr ap)))); apply syms_activated).
+        assert (A4 : In a (syms (push_visited (fst (activated s2 a (suppr ap))) a e))) by (rewrite E4; exact A2).
+        assert (S4 : sender_in (push_visited (fst (activated s2 a (suppr ap))) a e) from)
+          by (unfold sender_in in *; destruct from; [rewrite E4; exact S2|exact I]).
+        destruct (W' D4 A4 S4) as (D5 & M5). split.
+        * match goal with |- Dc (pop_visited (fire ?s ?c) _ _) => eapply Dc_same; [| | |apply (Dc_fire s c D5)]; reflexivity end.
+        * match goal with |- incl _ (syms (pop_visited (fire ?s ?c) ?a ?e)) => change (syms (pop_visited (fire s c) a e)) with (syms (fire s c)) end.
+          rewrite syms_fire. intros y Hy. apply M5. rewrite E4. apply M2, Hy.
+  Qed.
+
+  Lemma run_entries_decl fuel all : forall es bbs s s', run_entries V m fuel all bbs s es = Ok s' -> Dc s -> Dc s'.
+  Proof.
+    induction es as [|[a e] r IH]; intros bbs s s' H HD; cbn [run_entries] in H; [injection H as <-; exact HD|].
+    destruct (lookup m a e); [|discriminate].
+    match type of H with bind ?r _ = _ => destruct r as [s1| | |] eqn:W; try discriminate end. cbn [bind] in H.
+    apply visit_endpoint_decl in W as (D1 & _); [eapply IH; eassumption|].
+    eapply Dc_same; [| | |apply (Dc_emit s (Section a e) (fun x (Hx:In x []) => match Hx with end) HD)]; reflexivity.
+  Qed.
+
+  (* the head: the symbol table sorted by (category, first use) - a permutation of it *)
+  Lemma insert_cat_perm x l : Permutation (insert_cat x l) (x :: l).
+  Proof.
+    induction l as [|y t IH]; cbn [insert_cat]; [reflexivity|]. destruct (N.ltb (fst x) (fst y)); [reflexivity|].
+    rewrite IH. apply perm_swap.
+  Qed.
+  Lemma declare_perm ys : Permutation (map fst (declare m ys)) ys.
+  Proof.
+    unfold declare. rewrite map_map.
+    assert (H : forall acc, Permutation (map (fun z => fst (snd z)) (fold_left (fun acc a => insert_cat (fst (cat_of m a), (a, snd (cat_of m a))) acc) ys acc))
+                                        (ys ++ map (fun z => fst (snd z)) acc)).
+    { induction ys as [|y r IH]; intros acc; cbn [fold_left Datatypes.app]; [reflexivity|].
+      rewrite IH. rewrite (Permutation_map _ (insert_cat_perm _ acc)). cbn [map fst snd]. symmetry. apply Permutation_middle. }
+    rewrite (H []). cbn [map]. rewrite app_nil_r. reflexivity.
+  Qed.
+
+  Theorem seq_declared_once fuel bbs starts d ev :
+    gen V m fuel bbs starts = Ok (d, ev) -> NoDup (map fst d) /\ forall x, In x (parts ev) -> In x (map fst d).
+  Proof.
+    intros H. unfold gen, gen_st in H. destruct (run_entries _ _ _ _ _ _ _) as [s| | |] eqn:R; try discriminate.
+    cbn [bind] in H. injection H as <- <-.
+    apply run_entries_decl in R as (H1 & H2 & _).
+    - split.
+      + eapply Permutation_NoDup; [symmetry; apply declare_perm|exact H1].
+      + intros x Hx. eapply Permutation_in; [symmetry; apply declare_perm|apply H2, Hx].
+    - repeat split; [constructor|intros x []|intros y b []].
+  Qed.
+End Declared.
